@@ -76,7 +76,10 @@ class C07(Check):
             "of the signed_by values, every signed_by function (quick: 4-element chain only); (e) every element signed by "
             "every other key of the hierarchy and by a stranger; (f) P-384 / secp256k1 keys and SHA-384 "
             "at every level incl. the root; (g) wrong / expired / not self-consistent / renamed roots; "
-            "(h) element kinds chained out of order, other key encodings, over/under-long messages. "
+            "(h) element kinds chained out of order, other key encodings, over/under-long messages; "
+            "(i) two quotes whose chains share the first 0..all elements, one own or shared non-leaf "
+            "element of the second expired / not yet valid / signed by a stranger / bit-flipped, or its "
+            "quote corrupted, or nothing, with the target lists [a, b], [b, a], [a, b, a], [b, a, b], [a], [b]. "
             "An execution is distinct by (part, corrupted element and field, verdict, failing element).")
     assumptions = [
         "key and payload bytes are seeded; ECDSA signatures are deterministic (RFC 6979 via OpenSSL); "
@@ -245,6 +248,9 @@ class C07(Check):
                 cs.append({"kind": "curves", "depth": d, "level": lvl})
             cs.append({"kind": "roots", "depth": d})
         cs.append({"kind": "kinds"})
+        for d in (1, 2, 3):
+            for share in range(d + 2):
+                cs.append({"kind": "multi", "depth": d, "share": share})
         return cs
 
     # ---------------------------------------------------------------------------------
@@ -475,6 +481,105 @@ class C07(Check):
                 self.evaluate(doc, G.pem_of(base64.b64decode(e["message"])), G.T0, "root:is-an-element",
                               stats, vs)
 
+    # ---- (i) several targets: each verdict is independent of the others -----------------------
+    def run_multi(self, case, stats, vs):
+        """Branch `old` (old_quote) shares the first `share` elements of the main chain
+        (certificates top first, then the attestation key) and owns the rest."""
+        w = self.world
+        depth, share = case["depth"], case["share"]
+        doc, root_pem, meta = self.chain(depth, "wide-top")
+        x = [m[0] for m in meta["x509"]]
+
+        def branch(bad=None, how=None):
+            """elements of the old branch; element `bad` (an own one) spoiled in the way `how`"""
+            els = []
+            parent_name, parent_key = G.V2_ROOT, "root"
+            for i, n in enumerate(x):
+                if i < share:
+                    parent_name, parent_key = n, n
+                    continue
+                name = n + "_old"
+                nb, na = meta["x509"][i][1], meta["x509"][i][2]
+                issuer = parent_key
+                if bad == name:
+                    if how == "expired":
+                        nb, na = G.T0 - 90 * DAY, G.T0 - 50 * DAY
+                    elif how == "not-yet-valid":
+                        nb, na = G.T0 + 50 * DAY, G.T0 + 90 * DAY
+                    elif how == "stranger":
+                        issuer = "stranger"
+                der = w.cert(name, issuer, nb, na, issuer_cn=parent_key)
+                if bad == name and how == "sig-bit":
+                    der = G.flip(der, len(der) - 9, 2)
+                if bad == name and how == "tbs-bit":
+                    der = G.flip(der, 40, 2)
+                els.append(w.x509_element(name, parent_name, der))
+                parent_name, parent_key = name, name
+            if share <= depth:
+                signer = "stranger" if (bad == "attestation_old" and how == "stranger") else parent_key
+                att = w.att_element("attestation_old", parent_name, signer, key_name="attkey_old")
+                if bad == "attestation_old" and how == "sig-bit":
+                    att["signature"] = G.flip(bytes.fromhex(att["signature"]), 30, 1).hex()
+                if bad == "attestation_old" and how == "auth-bit":
+                    att["auth_data"] = G.flip(bytes.fromhex(att["auth_data"]), 3, 1).hex()
+                els.append(att)
+                att_name, att_key = "attestation_old", "attkey_old"
+            else:
+                att_name, att_key = "attestation", "attkey"
+            custom = b"POWHSM:5.4::sgx" + G.Rng("c07-old-custom").bytes(112)
+            q = w.quote_element("old_quote", att_name, att_key, custom=custom)
+            if bad == "old_quote":
+                q["signature"] = G.flip(bytes.fromhex(q["signature"]), 30, 1).hex()
+            els.append(q)
+            return els
+
+        own = [e["name"] for e in branch() if e["name"] != "old_quote"]
+        plans = [(None, None, "multi:both-genuine"), ("old_quote", "sig-bit", "multi:leaf-corrupted")]
+        for name in own:
+            hows = ["sig-bit", "stranger"] + (["expired", "not-yet-valid", "tbs-bit"] if name != "attestation_old"
+                                              else ["auth-bit"])
+            for how in hows:
+                plans.append((name, how, "multi:own-nonleaf-" + how))
+        tlists = [["old_quote", "quote"], ["quote", "old_quote"], ["old_quote", "quote", "old_quote"],
+                  ["quote", "old_quote", "quote"], ["old_quote"], ["quote"]]
+        for bad, how, label in plans:
+            els = branch(bad, how)
+            for tl in tlists:
+                d = G.clone(doc)
+                d["elements"] = els + d["elements"]
+                d["targets"] = list(tl)
+                exp = self.evaluate(d, root_pem, G.T0, label, stats, vs, target=tl[0])
+                if bad is None and (exp is None or any(v[0] != R.OK for v in exp.values())):
+                    raise HarnessError("genuine two-branch certificate not valid for the reference verifier")
+        # a shared element spoiled: both targets fail at it
+        shared = (x + ["attestation"])[:share]
+        for name in shared:
+            for tl in tlists[:4]:
+                d = G.clone(doc)
+                d["elements"] = branch() + d["elements"]
+                e = G.element_of(d, name)
+                if e["type"] == "x509_pem":
+                    der = base64.b64decode(e["message"])
+                    e["message"] = base64.b64encode(G.flip(der, len(der) - 9, 2)).decode()
+                else:
+                    e["signature"] = G.flip(bytes.fromhex(e["signature"]), 30, 1).hex()
+                d["targets"] = list(tl)
+                self.evaluate(d, root_pem, G.T0, "multi:shared-nonleaf-sig-bit", stats, vs, target=tl[0])
+        # the main branch spoiled at a non-leaf own element, old branch intact (roles swapped)
+        mains = (x + ["attestation"])[share:]
+        for name in mains:
+            for tl in tlists[:4]:
+                d = G.clone(doc)
+                d["elements"] = branch() + d["elements"]
+                e = G.element_of(d, name)
+                if e["type"] == "x509_pem":
+                    der = base64.b64decode(e["message"])
+                    e["message"] = base64.b64encode(G.flip(der, len(der) - 9, 2)).decode()
+                else:
+                    e["signature"] = G.flip(bytes.fromhex(e["signature"]), 30, 1).hex()
+                d["targets"] = list(tl)
+                self.evaluate(d, root_pem, G.T0, "multi:main-nonleaf-sig-bit", stats, vs, target=tl[0])
+
     # ---- (h) kinds out of order, encodings, lengths --------------------------------------------
     def run_kinds(self, case, stats, vs):
         w = self.world
@@ -652,7 +757,8 @@ class C07(Check):
         exp = R.v2_validate(doc, root_element(root_pem), now)
         ev = exp[target]
         kinds = {e["name"]: e["type"] for e in doc["elements"]}
-        stats.observe((label, ev[0], kinds.get(ev[1]) if ev[0] != R.OK else None, got[0]))
+        stats.observe((label, tuple((exp[t][0], kinds.get(exp[t][1]) if exp[t][0] != R.OK else None)
+                                    for t in doc["targets"]), got[0]))
         stats.sample({"label": label, "now": iso(now), "expected": ev[:2] if ev[0] != R.OK else "ok",
                       "chain": [(e["name"], e["type"], e["signed_by"]) for e in doc["elements"]]})
         if open_ or ev[0] == R.OPEN:
@@ -671,10 +777,13 @@ class C07(Check):
                                 {"verdict": ev[:2]}, "outcome"))
             return exp
         for clause, t in self.mismatch(doc, exp, got[1]):
-            fk = kinds.get(ev[1], "") if ev[0] == R.FAIL else ""
+            et = exp.get(t, ev)
+            fk = kinds.get(et[1], "") if et[0] == R.FAIL else ""
             vs.append(Violation("C07", "C07:%s:%s:%s" % (clause, label, fk), case, None,
-                                {"result": repr(got[1].get(t)) if isinstance(got[1], dict) else repr(got[1])},
-                                {"verdict": ev[:2] if ev[0] != R.OK else ("ok", ev[1]["message"])}, clause))
+                                {"target": t, "result": repr(got[1].get(t)) if isinstance(got[1], dict)
+                                 else repr(got[1])},
+                                {"target": t, "verdict": et[:2] if et[0] != R.OK else ("ok", et[1]["message"])},
+                                clause))
         return exp
 
 
